@@ -206,6 +206,11 @@ func c06Conc(c *Ctx, name string, limit int, keys [][]c06Key, b vsched.Bounds) S
 				if v := an.labelTruth(); v != nil {
 					return v
 				}
+				for _, rid := range an.Order { // (the origin answers every key 200)
+					if r := an.Reqs[rid].Res; r.Status != 200 {
+						return &vsched.Violation{Sig: fmt.Sprintf("request-fails-%d", r.Status), Msg: fmt.Sprintf("request %s %s %s%s labelled %q was answered %d %q although the origin answers every key 200", rid, r.Method, r.Host, r.URI, r.XStatus, r.Status, trunc(r.Body))}
+					}
+				}
 				// epilogue: every key once more, sequentially
 				for i, ks := range keys {
 					for j, k := range ks {
